@@ -537,7 +537,11 @@ func runCheck(id, tier, only string, keep bool) int {
 		for _, e := range infraErrs {
 			fmt.Fprintf(os.Stderr, "HARNESS-ERROR %s\n", e)
 		}
-		return fatal(2, "%d worker(s) failed; this is a failure of the check, not a verdict", len(infraErrs))
+		if len(newVios) == 0 {
+			return fatal(2, "%d worker(s) failed; this is a failure of the check, not a verdict", len(infraErrs))
+		}
+		// the workers that did finish found violations: those stand on their own replays
+		fmt.Fprintf(os.Stderr, "vcheck: %d worker(s) failed; the violations below come from the workers that completed\n", len(infraErrs))
 	}
 	if len(newVios) > 0 {
 		rdir := filepath.Join(verifDir, "replays", id)
